@@ -97,11 +97,12 @@ class Module:
                     elif n.value is not None:
                         try:
                             self.env.vars[nm] = interp.ev(n.value, self.env)
-                        except (OutOfReach, Exception) as e:  # noqa
+                        except KeyboardInterrupt:
+                            raise
+                        except BaseException as e:  # noqa  (incl. Raised / OutOfReach: name is unmodelled)
                             self.env.vars[nm] = Missing(nm)
         for k, v in stubs.items():
-            if k not in self.env.vars or isinstance(self.env.vars[k], Missing):
-                self.env.vars[k] = v
+            self.env.vars[k] = v  # explicit stubs always win (assumed contracts / class overrides)
 
     def _decorated(self, n, qual, stubs):
         fv = FuncVal(n, self.env, qual, module=self, is_async=isinstance(n, ast.AsyncFunctionDef))
@@ -118,6 +119,8 @@ class Module:
                 bases.append(Missing(ast.unparse(b)))
         cls = ClassRec(node.name, [b for b in bases if isinstance(b, ClassRec) or hasattr(b, "mro_names")], module=self)
         cenv = Env(self.env)
+        ann_fields = []
+        cls.ann_fields = ann_fields
         for n in node.body:
             if isinstance(n, (ast.FunctionDef, ast.AsyncFunctionDef)):
                 kind = "function"
@@ -137,6 +140,8 @@ class Module:
                 targets = n.targets if isinstance(n, ast.Assign) else [n.target]
                 if len(targets) == 1 and isinstance(targets[0], ast.Name):
                     nm = targets[0].id
+                    if isinstance(n, ast.AnnAssign):
+                        ann_fields.append((nm, n.value))
                     if nm in state:
                         continue
                     if n.value is None:
@@ -150,7 +155,58 @@ class Module:
                 cls.attrs[n.name] = self.load_class(n, f"{qual}.{n.name}", {}, stubs)
         for k, v in state.items():
             cls.attrs[k] = v
+        is_dc = any((isinstance(d, ast.Name) and d.id == "dataclass") or
+                    (isinstance(d, ast.Call) and isinstance(d.func, ast.Name) and d.func.id == "dataclass")
+                    for d in node.decorator_list)
+        if is_dc and "__init__" not in cls.attrs:
+            cls.attrs["__init__"] = self._dataclass_init(cls, ann_fields, cenv)
         return cls
+
+    def _dataclass_init(self, cls, ann_fields, cenv):
+        """__init__ synthesised the way dataclasses does (positional fields, kw_only fields, defaults,
+        default_factory); extraction note: only `default`, `default_factory`, `kw_only` of field() are modelled."""
+        interp = self.interp
+        specs = []
+        for name, vnode in ann_fields:
+            spec = {"name": name, "required": vnode is None, "kw_only": False, "default": None, "factory": None}
+            if vnode is not None:
+                if isinstance(vnode, ast.Call) and isinstance(vnode.func, ast.Name) and vnode.func.id == "field":
+                    for kw in vnode.keywords:
+                        if kw.arg == "default":
+                            spec["default"] = interp.ev(kw.value, cenv)
+                        elif kw.arg == "default_factory":
+                            spec["factory"] = interp.ev(kw.value, cenv)
+                        elif kw.arg == "kw_only":
+                            spec["kw_only"] = interp.ev(kw.value, cenv)
+                    spec["required"] = not any(kw.arg in ("default", "default_factory") for kw in vnode.keywords)
+                else:
+                    spec["default"] = interp.ev(vnode, cenv)
+            specs.append(spec)
+
+        def init(i, self_, *args, **kwargs):
+            from .interp import exc
+            pos = [s for s in specs if not s["kw_only"]]
+            if len(args) > len(pos):
+                raise exc("TypeError", "too many positional arguments")
+            given = {}
+            for s_, a in zip(pos, args):
+                given[s_["name"]] = a
+            for k, v in kwargs.items():
+                if k in given or k not in [s_["name"] for s_ in specs]:
+                    raise exc("TypeError", f"unexpected argument {k}")
+                given[k] = v
+            for s_ in specs:
+                if s_["name"] in given:
+                    val = given[s_["name"]]
+                elif s_["factory"] is not None:
+                    val = i.call(s_["factory"], [], {})
+                elif not s_["required"]:
+                    val = s_["default"]
+                else:
+                    raise exc("TypeError", f"missing argument {s_['name']}")
+                i.setattr_(self_, s_["name"], val)
+        init._is_method = True
+        return init
 
     def func(self, qualname):
         """FuncVal for a top-level or Class.method qualified name."""
